@@ -348,9 +348,12 @@ fn escape_roundtrip(ctx: &mut Ctx, family: &str, idx: u64, s: &str) {
 }
 
 pub fn run(ctx: &mut Ctx) {
-    let n = if ctx.slow_tool { 12 } else { ctx.tier.pick(6_000u64, 300_000u64) };
+    let n = if ctx.slow_tool { 12 } else { ctx.tier.pick(40_000u64, 2_000_000u64) };
     for idx in 0..n {
         if ctx.take("history", idx) {
+            if ctx.stop("history") {
+                break;
+            }
             history(ctx, idx);
         }
     }
@@ -372,10 +375,13 @@ pub fn run(ctx: &mut Ctx) {
         }
         ctx.sample("escape", || json!({"alphabet": "a . \\ é space", "max_len": lmax}));
     }
-    let nr = if ctx.slow_tool { 10 } else { ctx.tier.pick(20_000u64, 500_000u64) };
+    let nr = if ctx.slow_tool { 10 } else { ctx.tier.pick(100_000u64, 5_000_000u64) };
     for idx in 0..nr {
         if !ctx.take("escape-random", idx) {
             continue;
+        }
+        if ctx.stop("escape-random") {
+            break;
         }
         let mut r = ctx.rng("escape-random", idx);
         let l = r.usize(0, 30);
